@@ -198,6 +198,10 @@ func (q *Queue) Add(elem *queue.Elem) (err error) {
 					frontBytes = b
 					frontElem = e
 				}
+				if _, ok := e.MessageWithID.(*queue.Publish); !ok {
+					// an in-flight PUBREL that has not been re-read yet after Init
+					continue
+				}
 				// drop qos0 message in the queue
 				pub := e.MessageWithID.(*queue.Publish)
 				// drop expired non-inflight message
